@@ -171,6 +171,35 @@ theorem stdout_atExit_healthy (s : Stdout) (hs : s.Healthy) :
     (done w e).world.stdout = w.stdout.atExit := by
   cases e <;> simp
 
+/-! `output.flush()?` is invisible when the primary is a file or an unbounded standard output -/
+
+@[simp] theorem doneThen_file (w : World) (e : Option ErrKind) (h : Handle) : doneThen w e (.file h) = done w e := by
+  cases e <;> rfl
+
+@[simp] theorem finishOk_file (w : World) (h : Handle) : finishOk w (.file h) = finish 0 w := rfl
+
+theorem stdout_flush_healthy (s : Stdout) (hs : s.Healthy) :
+    s.flush.2 = none ∧ s.flush.1.atExit = s.atExit := by
+  unfold Stdout.Healthy at hs
+  have hroom : ∀ n, s.room n = n := by intro n; simp [Stdout.room, hs]
+  unfold Stdout.flush
+  simp only [hroom, if_true]
+  refine ⟨trivial, ?_⟩
+  simp [Stdout.atExit, Stdout.room, hs]
+
+theorem finishOk_healthy (w : World) (hs : w.stdout.Healthy) : finishOk w .stdout = finish 0 w := by
+  obtain ⟨h1, h2⟩ := stdout_flush_healthy w.stdout hs
+  unfold finishOk flushPrimary
+  simp only [h1, done_none]
+  unfold finish
+  simp only [h2]
+
+theorem doneThen_healthy (w : World) (e : Option ErrKind) (hs : w.stdout.Healthy) :
+    doneThen w e .stdout = done w e := by
+  cases e with
+  | none => exact finishOk_healthy w hs
+  | some k => rfl
+
 theorem logErr_stdout (render : Diag → Bytes) (cfg : Cfg) (w : World) (lg : Option Handle) (d : Diag) :
     (logErr render cfg w lg d).stdout = w.stdout := by
   unfold logErr; split
@@ -256,7 +285,7 @@ theorem writeJson_file_exit0 (f : Flags) (reps : Reports) (json : Bool) (cy : Op
     simp only [if_true] at h0 ⊢
     cases cy with
     | none =>
-      simp only [emit_file] at h0 ⊢
+      simp only [emit_file, doneThen_file] at h0 ⊢
       obtain ⟨k, hk, hcl, he, _⟩ := emitFile_spec hc (jsonRep f reps)
       rw [he] at h0 ⊢
       by_cases hkk : k = (jsonRep f reps).bytes.length
@@ -268,7 +297,7 @@ theorem writeJson_file_exit0 (f : Flags) (reps : Reports) (json : Bool) (cy : Op
       · simp [hkk] at h0
     | some g =>
       have hne := hcy g rfl
-      simp only at h0 ⊢
+      simp only [doneThen_file] at h0 ⊢
       have hfr := emitFile_frame w g (jsonRep f reps)
       refine ⟨?_, ?_⟩
       · rw [done_fs, hfr.2.2.2.2 _ (Ne.symm hne), hc.1]; simp
@@ -295,7 +324,7 @@ theorem afterOpen_file_exit0 (render : Diag → Bytes) (cfg : Cfg) (inp : Input)
         = .file (jsonRep cfg.flags reps).bytes) := by
   unfold afterOpen at h0 ⊢
   by_cases hd : cfg.flags.dump = true
-  · simp only [hd, if_true, emit_file] at h0 ⊢
+  · simp only [hd, if_true, emit_file, doneThen_file] at h0 ⊢
     obtain ⟨k, hk, hcl, he, _⟩ := emitFile_spec hc (dumpRep cfg.flags reps)
     rw [he] at h0 ⊢
     by_cases hkk : k = (dumpRep cfg.flags reps).bytes.length
@@ -348,8 +377,14 @@ theorem afterOpen_file_exit0 (render : Diag → Bytes) (cfg : Cfg) (inp : Input)
         · simp [hkk] at h0
     cases inp with
     | unprocessable => simp at h0
-    | unreadable => exact key h0
-    | ok => exact key h0
+    | unreadable =>
+      by_cases hl : cfg.localUnsupported = true
+      · simp [hl] at h0
+      · simp only [hl, if_false] at h0 ⊢; exact key h0
+    | ok =>
+      by_cases hl : cfg.localUnsupported = true
+      · simp [hl] at h0
+      · simp only [hl, if_false] at h0 ⊢; exact key h0
 
 theorem regular_of_entry_eq {fs fs' : Fs} {p : Path} (h : fs'.entry p = fs.entry p) (hr : Regular fs p) :
     Regular fs' p := by
@@ -459,7 +494,7 @@ theorem writeJson_stdout_healthy (f : Flags) (reps : Reports) (json : Bool) (cy 
   unfold writeJson at h0 ⊢
   cases json with
   | false =>
-    simp only [Bool.false_eq_true, if_false, finish_stdout, Bool.false_and] at h0 ⊢
+    simp only [Bool.false_eq_true, if_false, finishOk_healthy w hs, finish_stdout, Bool.false_and] at h0 ⊢
     exact ⟨by simp [stdout_atExit_healthy _ hs, Stdout.total], by intro g _ _ hf; exact absurd hf (by simp)⟩
   | true =>
     simp only [if_true] at h0 ⊢
@@ -467,12 +502,14 @@ theorem writeJson_stdout_healthy (f : Flags) (reps : Reports) (json : Bool) (cy 
     | none =>
       simp only [emit_stdout] at h0 ⊢
       obtain ⟨he, hh, ht⟩ := stdout_write_healthy w.stdout (jsonRep f reps) hs
+      rw [doneThen_healthy _ _ (show (World.mk w.fs (w.stdout.write (jsonRep f reps)).1 w.stderr).stdout.Healthy from hh)] at h0 ⊢
       refine ⟨?_, by intro g hg; cases hg⟩
       rw [done_stdout]
       simp only
       rw [stdout_atExit_healthy _ hh, ht]; simp [Stdout.total]
     | some g =>
       simp only at h0 ⊢
+      rw [doneThen_healthy _ _ (show (emitFile w g (jsonRep f reps)).1.stdout.Healthy from hs)] at h0 ⊢
       refine ⟨?_, ?_⟩
       · rw [done_stdout, emitFile_stdout, stdout_atExit_healthy _ hs]; simp [Stdout.total]
       · intro g' hg' hcg _
@@ -498,6 +535,7 @@ theorem afterOpen_stdout_healthy_exit0 (render : Diag → Bytes) (cfg : Cfg) (in
   by_cases hd : cfg.flags.dump = true
   · simp only [hd, if_true, emit_stdout] at h0 ⊢
     obtain ⟨he, hh, ht⟩ := stdout_write_healthy w.stdout (dumpRep cfg.flags reps) hs
+    rw [doneThen_healthy _ _ (show (World.mk w.fs (w.stdout.write (dumpRep cfg.flags reps)).1 w.stderr).stdout.Healthy from hh)] at h0 ⊢
     refine ⟨?_, ?_⟩
     · rw [done_stdout]; simp only
       rw [stdout_atExit_healthy _ hh, ht]; simp [Stdout.total, primaryBytes, hd]
@@ -537,8 +575,14 @@ theorem afterOpen_stdout_healthy_exit0 (render : Diag → Bytes) (cfg : Cfg) (in
         rw [ht]; simp [primaryBytes, hd', hh]
     cases inp with
     | unprocessable => simp at h0
-    | unreadable => exact key h0
-    | ok => exact key h0
+    | unreadable =>
+      by_cases hl : cfg.localUnsupported = true
+      · simp [hl] at h0
+      · simp only [hl, if_false] at h0 ⊢; exact key h0
+    | ok =>
+      by_cases hl : cfg.localUnsupported = true
+      · simp [hl] at h0
+      · simp only [hl, if_false] at h0 ⊢; exact key h0
 
 
 theorem emitReports_stdout_healthy_exit0 (render : Diag → Bytes) (cfg : Cfg) (inp : Input) (reps : Reports)
@@ -600,7 +644,7 @@ theorem writeJson_file_any (f : Flags) (reps : Reports) (json : Bool) (cy : Opti
     simp only [if_true]
     cases cy with
     | none =>
-      simp only [emit_file]
+      simp only [emit_file, doneThen_file]
       obtain ⟨k, hk, hcl, he, hr⟩ := emitFile_spec hc (jsonRep f reps)
       have hp := (emitFile_frame w h (jsonRep f reps)).2.2.2.1
       refine ⟨k, ?_, ?_⟩
@@ -613,6 +657,7 @@ theorem writeJson_file_any (f : Flags) (reps : Reports) (json : Bool) (cy : Opti
     | some g =>
       have hne := hcy g rfl
       have hfr := emitFile_frame w g (jsonRep f reps)
+      simp only [doneThen_file]
       refine ⟨0, ?_, by simp⟩
       rw [done_fs, hfr.2.2.2.2 _ (Ne.symm hne), hc.1]; simp
 
@@ -632,7 +677,7 @@ theorem afterOpen_file_any (render : Diag → Bytes) (cfg : Cfg) (inp : Input) (
         k = 0 ∨ (cfg.flags.cyborg = true ∧ (primaryBytes cfg.flags reps).take k = (humanRep cfg.flags reps).bytes)) := by
   unfold afterOpen
   by_cases hd : cfg.flags.dump = true
-  · simp only [hd, if_true, emit_file]
+  · simp only [hd, if_true, emit_file, doneThen_file]
     obtain ⟨k, hk, hcl, he, hr⟩ := emitFile_spec hc (dumpRep cfg.flags reps)
     have hp := (emitFile_frame w h (dumpRep cfg.flags reps)).2.2.2.1
     refine ⟨k, ?_, ?_⟩
@@ -706,8 +751,22 @@ theorem afterOpen_file_any (render : Diag → Bytes) (cfg : Cfg) (inp : Input) (
       simp only [finish_fs, List.take_zero]
       rw [logErr_entry_other render cfg w lg _ h.path (fun g hg => (hlg g hg).symm)]
       exact hc.1
-    | unreadable => exact key
-    | ok => exact key
+    | unreadable =>
+      by_cases hl : cfg.localUnsupported = true
+      · simp only [hl, if_true]
+        refine ⟨0, ?_, by simp⟩
+        simp only [finish_fs, List.take_zero]
+        rw [logErr_entry_other render cfg w lg _ h.path (fun g hg => (hlg g hg).symm)]
+        exact hc.1
+      · simp only [hl, if_false]; exact key
+    | ok =>
+      by_cases hl : cfg.localUnsupported = true
+      · simp only [hl, if_true]
+        refine ⟨0, ?_, by simp⟩
+        simp only [finish_fs, List.take_zero]
+        rw [logErr_entry_other render cfg w lg _ h.path (fun g hg => (hlg g hg).symm)]
+        exact hc.1
+      · simp only [hl, if_false]; exact key
 
 
 theorem writeJson_stdout_healthy_any (f : Flags) (reps : Reports) (json : Bool) (cy : Option Handle)
@@ -718,7 +777,7 @@ theorem writeJson_stdout_healthy_any (f : Flags) (reps : Reports) (json : Bool) 
   unfold writeJson
   cases json with
   | false =>
-    simp only [Bool.false_eq_true, if_false, finish_stdout, Bool.false_and]
+    simp only [Bool.false_eq_true, if_false, finishOk_healthy w hs, finish_stdout, Bool.false_and]
     exact ⟨by simp [stdout_atExit_healthy _ hs, Stdout.total], by simp⟩
   | true =>
     simp only [if_true]
@@ -726,11 +785,14 @@ theorem writeJson_stdout_healthy_any (f : Flags) (reps : Reports) (json : Bool) 
     | none =>
       simp only [emit_stdout]
       obtain ⟨he, hh, ht⟩ := stdout_write_healthy w.stdout (jsonRep f reps) hs
+      rw [doneThen_healthy _ _ (show (World.mk w.fs (w.stdout.write (jsonRep f reps)).1 w.stderr).stdout.Healthy from hh)]
       refine ⟨?_, by rw [he]; simp⟩
       rw [done_stdout]
       simp only
       rw [stdout_atExit_healthy _ hh, ht]; simp [Stdout.total]
     | some g =>
+      simp only
+      rw [doneThen_healthy _ _ (show (emitFile w g (jsonRep f reps)).1.stdout.Healthy from hs)]
       refine ⟨?_, by simp⟩
       rw [done_stdout, emitFile_stdout, stdout_atExit_healthy _ hs]; simp [Stdout.total]
 
@@ -749,7 +811,8 @@ theorem afterOpen_stdout_healthy_fail (render : Diag → Bytes) (cfg : Cfg) (inp
   unfold afterOpen at hne ⊢
   by_cases hd : cfg.flags.dump = true
   · simp only [hd, if_true, emit_stdout] at hne ⊢
-    obtain ⟨he, _, _⟩ := stdout_write_healthy w.stdout (dumpRep cfg.flags reps) hs
+    obtain ⟨he, hh, _⟩ := stdout_write_healthy w.stdout (dumpRep cfg.flags reps) hs
+    rw [doneThen_healthy _ _ (show (World.mk w.fs (w.stdout.write (dumpRep cfg.flags reps)).1 w.stderr).stdout.Healthy from hh)] at hne
     rw [he] at hne; simp at hne
   · have hd' : cfg.flags.dump = false := by simpa using hd
     simp only [hd', Bool.false_eq_true, if_false] at hne ⊢
@@ -784,8 +847,20 @@ theorem afterOpen_stdout_healthy_fail (render : Diag → Bytes) (cfg : Cfg) (inp
       left
       simp only [finish_stdout, logErr_stdout]
       simp [stdout_atExit_healthy _ hs, Stdout.total]
-    | unreadable => right; exact ⟨(key hne).1, by simp, (key hne).2⟩
-    | ok => right; exact ⟨(key hne).1, by simp, (key hne).2⟩
+    | unreadable =>
+      by_cases hl : cfg.localUnsupported = true
+      · left
+        simp only [hl, if_true, finish_stdout, logErr_stdout]
+        simp [stdout_atExit_healthy _ hs, Stdout.total]
+      · simp only [hl, if_false] at hne ⊢
+        right; exact ⟨(key hne).1, by simp, (key hne).2⟩
+    | ok =>
+      by_cases hl : cfg.localUnsupported = true
+      · left
+        simp only [hl, if_true, finish_stdout, logErr_stdout]
+        simp [stdout_atExit_healthy _ hs, Stdout.total]
+      · simp only [hl, if_false] at hne ⊢
+        right; exact ⟨(key hne).1, by simp, (key hne).2⟩
 
 
 /-- the shape of `run` without `--help-markdown`: an early exit with a non-zero status that touched
@@ -907,25 +982,36 @@ theorem done_exit_mem (w : World) (e : Option ErrKind) : (done w e).exit = 0 ∨
   | none => simp
   | some k => simpa using failWith_exit_mem w k
 
+theorem finishOk_exit_mem (w : World) (out : Writer) : (finishOk w out).exit = 0 ∨ (finishOk w out).exit = 1 :=
+  done_exit_mem _ _
+
+theorem doneThen_exit_mem (w : World) (e : Option ErrKind) (out : Writer) :
+    (doneThen w e out).exit = 0 ∨ (doneThen w e out).exit = 1 := by
+  cases e with
+  | none => exact finishOk_exit_mem w out
+  | some k => exact failWith_exit_mem w k
+
 theorem writeJson_exit_mem (f : Flags) (json : Bool) (cy : Option Handle) (out : Writer) (w : World) :
     (writeJson f reps json cy out w).exit = 0 ∨ (writeJson f reps json cy out w).exit = 1 := by
   unfold writeJson
   split
-  · split <;> exact done_exit_mem _ _
-  · simp
+  · split <;> exact doneThen_exit_mem _ _ _
+  · exact finishOk_exit_mem _ _
 
 theorem afterOpen_exit_mem (human json : Bool) (lg cy : Option Handle) (out : Writer) (w : World) :
     (afterOpen render cfg inp reps human json lg cy out w).exit = 0 ∨
     (afterOpen render cfg inp reps human json lg cy out w).exit = 1 := by
   unfold afterOpen
   split
-  · exact done_exit_mem _ _
+  · exact doneThen_exit_mem _ _ _
   · split
     · simp
-    · unfold writeReports
-      split
-      · exact failWith_exit_mem _ _
-      · exact writeJson_exit_mem _ _ _ _ _ _
+    · split
+      · simp
+      · unfold writeReports
+        split
+        · exact failWith_exit_mem _ _
+        · exact writeJson_exit_mem _ _ _ _ _ _
 
 theorem emitReports_exit_mem (human json : Bool) (lg : Option Handle) (w : World) :
     (emitReports render cfg inp reps human json lg w).exit = 0 ∨
@@ -997,14 +1083,21 @@ theorem emit_ok (w : World) (out : Writer) (r : Rep) (ho : WriterOk w out) :
     obtain ⟨he, hh, hg, _⟩ := emitFile_ok w h r ho
     exact ⟨he, hh, hg⟩
 
+theorem finishOk_ok (w : World) (out : Writer) (ho : WriterOk w out) : (finishOk w out).exit = 0 := by
+  cases out with
+  | stdout => rw [finishOk_healthy w ho]; rfl
+  | file h => rfl
+
 theorem afterOpen_healthy_exit (human json : Bool) (lg cy : Option Handle) (out : Writer) (w : World)
     (ho : WriterOk w out) (hcy : ∀ g, cy = some g → HandleOk w.fs g) :
     (afterOpen render cfg inp reps human json lg cy out w).exit
-      = if cfg.flags.dump then 0 else if inp = .unprocessable then 1 else 0 := by
+      = if cfg.flags.dump then 0 else if inp = .unprocessable then 1
+        else if cfg.localUnsupported then 1 else 0 := by
   unfold afterOpen
   by_cases hd : cfg.flags.dump = true
   · simp only [hd, if_true]
-    rw [(emit_ok w out _ ho).1]; rfl
+    rw [(emit_ok w out _ ho).1]
+    exact finishOk_ok _ _ (emit_ok w out _ ho).2.1
   · simp only [hd, if_false]
     have key : (writeReports cfg.flags reps human json cy out w).exit = 0 := by
       unfold writeReports
@@ -1022,15 +1115,25 @@ theorem afterOpen_healthy_exit (human json : Bool) (lg cy : Option Handle) (out 
       · cases cy with
         | none =>
           simp only
-          rw [(emit_ok _ _ _ hE.2.1).1]; rfl
+          rw [(emit_ok _ _ _ hE.2.1).1]
+          exact finishOk_ok _ _ (emit_ok _ _ _ hE.2.1).2.1
         | some g =>
           simp only
-          rw [(emitFile_ok _ g _ (hE.2.2 g (hcy g rfl))).1]; rfl
-      · rfl
+          rw [(emitFile_ok _ g _ (hE.2.2 g (hcy g rfl))).1]
+          apply finishOk_ok
+          -- the write to the cyborg file leaves the primary writer as it was
+          cases hw : (emitIf human w out (humanRep cfg.flags reps)).2.1 with
+          | stdout =>
+            have := hE.2.1; rw [hw] at this
+            exact this
+          | file h' =>
+            have := hE.2.1; rw [hw] at this
+            exact (emitFile_ok _ g _ (hE.2.2 g (hcy g rfl))).2.2.1 h' this
+      · exact finishOk_ok _ _ hE.2.1
     cases inp with
     | unprocessable => simp
-    | unreadable => simpa using key
-    | ok => simpa using key
+    | unreadable => by_cases hl : cfg.localUnsupported = true <;> simp [hl, key]
+    | ok => by_cases hl : cfg.localUnsupported = true <;> simp [hl, key]
 
 /-- every file the command line names can be created and grown without limit; standard output is unbounded -/
 structure Healthy (cfg : Cfg) (w : World) : Prop where
@@ -1056,7 +1159,8 @@ theorem emitReports_healthy_exit (human json : Bool) (lg : Option Handle) (w : W
     (hcy : cfg.flags.cyborg = true → Regular w.fs cfg.cyborgPath ∧ w.fs.limit cfg.cyborgPath = none)
     (hout : ∀ p, cfg.outputFile = some p → Regular w.fs p ∧ w.fs.limit p = none) :
     (emitReports render cfg inp reps human json lg w).exit
-      = if cfg.flags.dump then 0 else if inp = .unprocessable then 1 else 0 := by
+      = if cfg.flags.dump then 0 else if inp = .unprocessable then 1
+        else if cfg.localUnsupported then 1 else 0 := by
   unfold emitReports
   -- the cyborg file
   have hopen : ∃ w1 cy, openOpt w (if cfg.flags.cyborg = true then some cfg.cyborgPath else none) = some (w1, cy) ∧
@@ -1130,13 +1234,15 @@ def soleRep (f : Flags) (reps : Reports) : Rep :=
   if f.dump then dumpRep f reps else if f.json then jsonRep f reps else humanRep f reps
 
 /-- a non-cyborg run on a processable file, no `--log-file`, no `--output-file`, options accepted:
-    `run` is one `write` of the sole report to standard output followed by `main`'s error handling -/
+    `run` is one `write` of the sole report to standard output, then `output.flush()?`, then `main`'s
+    error handling -/
 theorem run_sole_stdout
     (hacc : exitOf cfg.flags .ok = 0) (hc : cfg.flags.cyborg = false) (hmd : cfg.helpMarkdown = false)
+    (hlu : cfg.localUnsupported = false)
     (hlog : cfg.logFile = none) (hout : cfg.outputFile = none) :
     run render cfg .ok reps w
-      = done { w with stdout := (w.stdout.write (soleRep cfg.flags reps)).1 }
-          (w.stdout.write (soleRep cfg.flags reps)).2 := by
+      = doneThen { w with stdout := (w.stdout.write (soleRep cfg.flags reps)).1 }
+          (w.stdout.write (soleRep cfg.flags reps)).2 .stdout := by
   rw [exitOf_eq] at hacc
   by_cases hgn : groupCount cfg.flags > 1
   · rw [if_pos hgn] at hacc; cases hacc
@@ -1155,7 +1261,7 @@ theorem run_sole_stdout
   | false =>
     have hh : humanOn cfg.flags = !cfg.flags.json := by simp [humanOn, hc, hd]
     have hj : jsonOn cfg.flags = cfg.flags.json := by simp [jsonOn, hc]
-    simp only [Bool.false_eq_true, if_false, writeReports, hh, hj]
+    simp only [Bool.false_eq_true, if_false, writeReports, hh, hj, hlu]
     cases hjs : cfg.flags.json with
     | true => simp [emitIf, writeJson, emit_stdout]
     | false =>
@@ -1188,6 +1294,38 @@ theorem stdout_write_fits (s : Stdout) (r : Rep) (c : Nat) (he : s.out = [] ∧ 
   simp only [Stdout.atExit, Stdout.room, hc, hlen]
   generalize r.bytes.length - min r.pend r.bytes.length = k at *
   rw [take_min_length, take_split _ _ _ hfit]
+
+/-- … and the explicit `flush()` that follows: it succeeds iff the whole report fits; either way the
+    first `c` bytes are what standard output holds in the end -/
+theorem stdout_write_then_flush (s : Stdout) (r : Rep) (c : Nat) (he : s.out = [] ∧ s.buf = []) (hc : s.cap = some c)
+    (hfit : r.bytes.length - min r.pend r.bytes.length ≤ c) :
+    (s.write r).2 = none ∧
+    ((s.write r).1.flush.2 = if r.bytes.length ≤ c then none else some s.kind) ∧
+    ((s.write r).1.flush.1.atExit).out = r.bytes.take c := by
+  have hlen : (r.bytes.take (r.bytes.length - min r.pend r.bytes.length)).length
+      = r.bytes.length - min r.pend r.bytes.length := by
+    rw [List.length_take]; omega
+  unfold Stdout.write
+  simp only [he.1, he.2, List.nil_append, Stdout.room, hc, List.length_nil, Nat.sub_zero, hlen]
+  rw [if_pos (by omega)]
+  refine ⟨rfl, ?_, ?_⟩
+  · simp only [Stdout.flush, Stdout.room, hc, hlen, List.length_drop]
+    generalize hk : r.bytes.length - min r.pend r.bytes.length = k at *
+    have hkl : k ≤ r.bytes.length := by omega
+    by_cases hle : r.bytes.length ≤ c
+    · rw [if_pos hle, if_pos (by omega)]
+    · rw [if_neg hle, if_neg (by omega)]
+  · simp only [Stdout.flush, Stdout.room, hc, hlen, List.length_drop]
+    generalize hk : r.bytes.length - min r.pend r.bytes.length = k at *
+    have hkl : k ≤ r.bytes.length := by omega
+    by_cases hle : r.bytes.length ≤ c
+    · rw [if_pos (by omega)]
+      simp only [Stdout.atExit, List.take_nil, List.append_nil, List.take_append_drop]
+      rw [List.take_of_length_le hle]
+    · rw [if_neg (by omega)]
+      simp only [Stdout.atExit, List.take_nil, List.append_nil]
+      have : min (r.bytes.length - k) (c - k) = c - k := by omega
+      rw [this, take_split _ _ _ hfit]
 
 /-- … the part before the pending tail does not fit: the error is seen -/
 theorem stdout_write_overflow (s : Stdout) (r : Rep) (c : Nat) (he : s.out = [] ∧ s.buf = []) (hc : s.cap = some c)
